@@ -66,8 +66,12 @@ func runConc(e Entry, rng *rand.Rand, histories, ops int) {
 		}
 		// per-goroutine programs, fixed by the seed
 		progs := make([][]concOp, G)
+		per := 2 * ops / G // many short histories: the total number of operations stays around 2*ops
+		if per < 3 {
+			per = 3
+		}
 		for g := range progs {
-			for k := 0; k < ops; k++ {
+			for k := 0; k < per; k++ {
 				r := rng.Intn(100)
 				op := concOp{kind: "call", m: rng.Intn(len(hot))}
 				switch {
